@@ -152,6 +152,8 @@ b("B39", OWNER, "\tif !update_wallet_state(\n\t\twallet_inst.clone(),\n\t\tkeych
 b("B40", "libwallet/src/internal/keys.rs", "p.path[0] = ChildNumber::from(<u32>::from(p.path[0]) + 1);", "p.path[0] = ChildNumber::from(1 + <u32>::from(p.path[0]));", "addition operands swapped")
 b("B41", "controller/src/controller.rs", "\t\tmatches!(val[\"method\"].as_str(), Some(\"init_secure_api\"))", "\t\tval[\"method\"].as_str() == Some(\"init_secure_api\")", "matches! rewritten as == on Option<&str>")
 
+b("B42", UPD, "\tif query_args.is_some() && tx_id.is_none() && tx_slate_id.is_none() {\n\t\ttxs = apply_advanced_tx_list_filtering(wallet, &query_args.unwrap(), parent_key_id)", "\tif let (Some(q), None, None) = (query_args.as_ref(), tx_id, tx_slate_id) {\n\t\ttxs = apply_advanced_tx_list_filtering(wallet, q, parent_key_id)", "dispatch test written as a tuple pattern")
+
 
 def _apply(mu, repo_copy):
     p = os.path.join(repo_copy, mu["file"])
